@@ -64,7 +64,7 @@ func mkWrapper(name string, code []byte, extra []account, gas uint64, input []by
 	}
 	// signature class: the wrapper kind; the state-changing action is named in the violation text
 	kind := name
-	if i := strings.Index(kind, "/"); i >= 0 && !strings.HasPrefix(kind, "stack/") && !strings.HasPrefix(kind, "loop/") {
+	if i := strings.Index(kind, "/"); i >= 0 {
 		kind = kind[:i]
 	}
 	return wrapperProg{p, "wrapper=" + kind}
